@@ -127,6 +127,23 @@ pub fn concurrent(r: &mut Runner, threads: usize) {
     let bad: Arc<Mutex<Vec<(Call, u64)>>> = Arc::new(Mutex::new(Vec::new()));
     let mut handles = Vec::new();
     let mut hashes: Vec<u64> = Vec::new();
+    for (t, plan) in plans.iter().enumerate().take(2) {
+        let order: Vec<&str> = plan.iter().take(NSLOTS).map(|c| SLOT_NAMES[c.slot]).collect();
+        let c = &plan[0];
+        r.rep.add_sample(format!(
+            "{{\"kind\":\"first-call race\",\"threads\":{},\"forced_cpu_level\":{},\"thread\":{},\"first_call_order\":\"{}\",\"first_call\":{{\"routine\":\"{}\",\"hay\":\"{}\",\"hay_len\":{},\"needles\":\"{}\",\"sequential_answer\":{}}},\"calls_in_thread\":{}}}",
+            threads,
+            r.force,
+            t,
+            order.join(","),
+            SLOT_NAMES[c.slot],
+            crate::util::json_escape(&crate::util::show(&c.hay)),
+            c.hay.len(),
+            crate::util::json_escape(&crate::util::show(&c.nd)),
+            c.expected as i64,
+            plan.len()
+        ));
+    }
     for plan in plans {
         for c in &plan {
             let h = crate::util::hash_u64(0xC15, c.slot as u64);
